@@ -92,6 +92,16 @@ void harness(void)
 		COVER_MUST(rv == 0 && st->p > st->line, "line_with_leading_blank");
 		if (rv == 0) ASSERT(*st->p != 0 && *st->p != '\n' && *st->p != '\\' && *st->p != ' ' && *st->p != '\t', "C10/C11: a line that is delivered has its cursor on the first character that is not blank");
 		break; }
+	case 12: {	/* C10: every section keyword the LP reader accepts (ILLread_lp: BOUNDS, BOUND, INTEGER, INT, END) is a reserved word for
+			 * the scanner when it stands at the beginning of a line, in any letter case: the constraint and bounds loops stop there */
+		static const char *kw[5] = { "BOUNDS", "BOUND", "INTEGER", "INT", "END" };
+		int k = nondet_int(), j; ASSUME(0 <= k && k <= 4);
+		for (j = 0; j < 8; j++) { char c = kw[k][j]; st->line[j] = (c != 0 && nondet_bool()) ? (char) (c + 32) : c; if (c == 0) break; }
+		st->p = st->line;
+		rv = mpq_ILLread_lp_state_next_var(st);
+		ASSERT(rv == -1, "C10: BOUNDS, BOUND, INTEGER, INT and END at the beginning of a line are section keywords for the scanner, in any letter case");
+		st->eof = 1;	/* the cursor assertion below is about arbitrary line contents, not this constructed one */
+		break; }
 	default: rv = mpq_ILLtest_lp_state_next_is(st, "<="); break;
 	}
 	if (!st->eof) {
